@@ -1064,11 +1064,68 @@ def evaluate(jobs, res, cold=False):
         compare(res, inp, real, o["tys"], o["rootid"], m, "order")
 
 
+# ---- the sequence belongs to the caller: whatever it does to the list it got, the next call (for the type, its name, a reference to
+# it) returns the complete order again
+def _caller_child(_job):
+    import dataclasses
+    import sys
+    import types
+    import typing
+    import warnings
+    warnings.simplefilter("ignore")
+    from typelib import graph
+    from typelib.py import refs
+    mod = types.ModuleType("vm_c09_caller")
+    sys.modules["vm_c09_caller"] = mod
+    exec("from __future__ import annotations\nimport dataclasses, typing\n@dataclasses.dataclass\nclass Tree:\n    label: str\n"
+         "    kids: typing.List[Tree]\n    parent: typing.Optional[Tree] = None\n", mod.__dict__)
+    bad = []
+
+    def keys(seq):
+        return [(repr(n.type), n.var, n.cyclic) for n in seq]
+    for T, spellings in ((mod.Tree, [mod.Tree, refs.forwardref("Tree", module="vm_c09_caller")]), (typing.Dict[str, typing.List[int]], [typing.Dict[str, typing.List[int]]])):
+        first = graph.static_order(T)
+        want = keys(first)
+        for what in ("pop", "reverse", "clear", "sort"):
+            got = graph.static_order(T)
+            try:
+                if what == "pop":
+                    got.pop()
+                elif what == "reverse":
+                    got.reverse()
+                elif what == "clear":
+                    got.clear()
+                else:
+                    got.sort(key=lambda n: repr(n.type))
+            except (AttributeError, TypeError):
+                pass                      # an immutable sequence: nothing a caller can do to it
+            for sp in spellings:
+                again = keys(graph.static_order(sp))
+                if again != want:
+                    bad.append(f"after a caller did .{what}() to the list static_order({T!r}) gave it, static_order({sp!r}) returns "
+                               f"{len(again)} nodes ending in {again[-1][0] if again else None}; it returned {len(want)} ending in {want[-1][0]}"[:400])
+    return bad
+
+
+def caller_mutation_probe(res):
+    from .. import iso
+    bad = iso.map_isolated(_caller_child, [None], timeout=60.0)[0]
+    if not isinstance(bad, list):
+        raise RuntimeError(f"harness: caller-mutation probe failed: {bad}")
+    res.case({"family": "caller-edits-the-returned-sequence"}, True)
+    for b in bad:
+        res.failures.append({"what": b, "input": {"caller_mutation": True}})
+    if not bad:
+        res.count("oracle:memoised-order-survives-the-caller", 8)
+
+
 def explore(ctx):
     res = Result()
     res.rule = RULE
     jobs = build_jobs(ctx)
     evaluate(jobs, res)
+    core.import_typelib()
+    caller_mutation_probe(res)
     return res
 
 
@@ -1078,6 +1135,12 @@ def witness(fid):
 
 def replay(failure):
     inp = failure["input"]
+    if inp.get("caller_mutation"):
+        from .. import iso
+        core.import_typelib()
+        bad = iso.map_isolated(_caller_child, [None], timeout=60.0)[0]
+        print(json.dumps(bad, indent=1, default=str)[:3000])
+        return bool(bad)
     roots = [inp["root"]] if inp.get("root") else inp.get("roots", [])
     res = Result()
     evaluate([{"prog": inp["prog"], "roots": roots, "family": "replay", "meta": {}}], res)
